@@ -16,7 +16,7 @@ ASSUMPTIONS = ['target values have the type their matching operator expects (the
 def run(rep, tier, seed):
     rnd = rng_for(seed, 'C04')
     b = Batch(rep)
-    npk = 200 if tier == 'quick' else 2500
+    npk = 450 if tier == 'quick' else 4000
     for i in range(npk):
         stack, pkt, st, pd = gen_parsed(rnd, ALL_STACKS[i % len(ALL_STACKS)])
         # the same Ruler object sees packets of both directions, several times (a matcher must not remember the previous packet)
@@ -44,7 +44,7 @@ def run(rep, tier, seed):
             rnd.shuffle(rules)
             case_match(b, pd, rules, klass='match:' + stack)
     # right-padded field values and patterns (synthetic descriptors)
-    for i in range(300 if tier == 'quick' else 3000):
+    for i in range(800 if tier == 'quick' else 8000):
         rule, vals = synth_case(rnd)
         pd = synth_pdesc(rule, vals, '')
         side = rnd.choice([L, R])
